@@ -469,6 +469,11 @@ func (f *fileBackedFile) VirtualClose(shareAccess ShareMask) {
 }
 
 func (f *fileBackedFile) virtualTruncate(size uint64) Status {
+	if f.referenceCount == 0 {
+		// The last reference to the file was dropped, meaning
+		// the backing file has already been released.
+		return StatusErrStale
+	}
 	if err := f.file.Truncate(int64(size)); err != nil {
 		f.allocator.errorLogger.Log(util.StatusWrapf(err, "Failed to truncate file to length %d", size))
 		return StatusErrIO
